@@ -383,6 +383,28 @@ fn sched_maybe_park(tname: &str, point: &str) {
     }
 }
 
+/// Harness-side park: a controlled thread spawned by the harness stops here (e.g. between two
+/// operations of its script) exactly as it would at a hook point of the crate.
+pub fn sched_park(point: &str) {
+    sched_maybe_park(&thread_name(), point);
+}
+
+/// Replaces the set of points at which controlled threads park (state and log are kept).
+pub fn sched_set_points(points: &[&str]) {
+    let mut g = lock_sched();
+    if let Some(s) = g.as_mut() {
+        s.points = points.iter().map(|s| (*s).to_string()).collect();
+    }
+}
+
+/// Adds a thread to the controlled ones.
+pub fn sched_add_thread(tname: &str) {
+    let mut g = lock_sched();
+    if let Some(s) = g.as_mut() {
+        s.controlled.insert(tname.to_string());
+    }
+}
+
 /// A controlled thread that the harness did not spawn finishes when released from `point`.
 pub fn sched_finish_after(tname: &str, point: &str) {
     let mut g = lock_sched();
@@ -457,6 +479,29 @@ pub fn sched_release(tname: &str) {
         s.release.insert(tname.to_string());
     }
     SCHED_CV.notify_all();
+}
+
+/// Releases the thread and waits until it has taken the release (it is running again).
+pub fn sched_release_sync(tname: &str, timeout: Duration) -> bool {
+    sched_release(tname);
+    let deadline = Instant::now() + timeout;
+    loop {
+        {
+            let g = lock_sched();
+            match g.as_ref() {
+                None => return false,
+                Some(s) => {
+                    if !s.release.contains(tname) {
+                        return true;
+                    }
+                }
+            }
+        }
+        if Instant::now() >= deadline {
+            return false;
+        }
+        std::thread::yield_now();
+    }
 }
 
 /// Releases the thread and waits until it parks again or finishes.
